@@ -9,7 +9,8 @@ RULE = ("schema-first logical documents (nested objects, arrays, arrays of objec
         "Option, Property, enum, any, typed hints incl. deliberately wrong ones) x paths {from_*_slice, from_*_tape, "
         "ObjectReader::deserialize (root and nested), from_*_reader with buffer sizes {longest token, +1, 64.., 32 KiB} and read "
         "schedules {fill, 1 byte, random chunks}}.  non-trivial = a value (not an error) came out")
-TRUSTED = ["serde's primitive Deserialize impls (u8..u64, i8..i64, f32, f64, bool, String, IgnoredAny) and serde-derive's code for "
+TRUSTED = ["walk_model: the extracted walks are fed the implementation's own tape (tt.parse) resp. reader tokens (tr.slice, chunking-independent by C07) of each text; Scalar::to_f64 is the extracted ScalarF64.to_f64_bits, the float casts of serde's visitors are the machine's (OCaml glue)",
+           "serde's primitive Deserialize impls (u8..u64, i8..i64, f32, f64, bool, String, IgnoredAny) and serde-derive's code for "
            "jomini::text::Property<T> are used as they are (library behaviour, exercised not verified)",
            "the expected value is computed by props/dedoc.py:expected (decimal meaning, yes/no, decoded strings, missing Option = None, "
            "unknown fields dropped, Property captures the operator) independently of the Rust code"]
@@ -50,6 +51,38 @@ FIXED = [
     ("J-stream-escape-chunked", "text stream reader mis-lexes an escaped quote that straddles a refill (C07 findings J/K)",
      b'name="a\\"b" x=y', "struct(%s:str,%s:str)" % (hx("name"), hx("x")), "slice", "reader:64:1*"),
 ]
+
+
+def walk_model(ctx, decases, stream="walk_model"):
+    """every `de.text` case once more, now against the extracted deserializer walks (TextDeTape /
+    TextDeStream): phase 1 asks the implementation for the canonical tape (tt.parse) and the reader
+    tokens (tr.slice) of each text, phase 2 runs `de.model.text <path> <enc> <shape> <hex> <aux>` on
+    both sides (harness: de.text on the bytes; model: the walk over <aux>)."""
+    texts = sorted(set(c.split("\t")[4] for c in decases))
+    p1 = ["tt.parse\t" + h for h in texts] + ["tr.slice\t" + h for h in texts]
+    out, _ = ctx.correspond(stream + "-phase1", p1, model=False, nontrivial=lambda c, i: i.startswith("ok ") or " END" in i)
+    base = len(out) - len(p1)
+    tape, toks = {}, {}
+    for k, h in enumerate(texts):
+        o = out[base + k]
+        if o.startswith("ok "):
+            parts = o.split(" ", 2)
+            tape[h] = parts[2] if len(parts) > 2 else "-"
+        toks[h] = out[base + len(texts) + k]
+    mcases = []
+    for c in decases:
+        kind, path, enc, sh, h = c.split("\t")
+        if path.startswith("reader:") or path.startswith("freader:"):
+            aux = toks[h]
+            ctx.count("walk_stream")
+        elif h in tape:
+            aux = tape[h]
+            ctx.count("walk_tape")
+        else:
+            ctx.count("walk_skipped_unparsable")      # the tape parser refused the text: C01's subject
+            continue
+        mcases.append("\t".join(["de.model.text", path, enc, sh, h, aux]))
+    ctx.correspond(stream, mcases, nontrivial=lambda c, i: i.startswith("("))
 
 
 def run(ctx):
@@ -120,6 +153,9 @@ def run(ctx):
             ctx.fail(key, what + ": %s gives %s, %s gives %s" % (ref, a, dev, b), fcases[2 * j:2 * j + 2], [a, b], a)
 
 
+    # the deserializer walks inside the Coq model: every case above against TextDeTape / TextDeStream
+    walk_model(ctx, cases + fcases)
+
     # scalar level: extracted Serde.text_scalar (typed hints with fall-back) against the real slice path
     from props import descalar
     ctx.correspond("scalar-hints", descalar.text_cases(ctx, ctx.scale(300, 3000)), nontrivial=nt)
@@ -138,6 +174,6 @@ def search(ctx):
 
 CLAIM = {
     "text": "every public text deserializer entry point (from_*_slice, from_*_tape, ObjectReader::deserialize, from_*_reader over a scripted Read) is run through a runtime-shape serde interpreter on generated documents x layouts x encodings x shapes and compared with an independently computed expected value; Coq: see coverage.theorems",
-    "note": "What is proved in Coq (Props/C02.v) is stated over the Serde/TextDeTape models; the byte-level lexing under every layout and buffer size is C01/C07. Everything else is carried by the oracle streams only.",
+    "note": "Props/C02.v pins the scalar/struct level; Props/C02_walk.v pins the deserializer walks: for every document of the core grammar (scalars, objects of key-op-value fields, arrays, any nesting) and every shape that fits, the extracted tape walk (TextDeTape.deser_tape on flatten d) and the stream walk (TextDeStream.deser_stream on the reader's tokens of d) both return spec_value, hence agree; findings H and M are reproduced by the models as witness theorems. Outside the core grammar (object tails / 'remainder', key-value arrays, headers, parameters, ghosts, any on containers) the walks are modelled and compared with the implementation case by case (stream walk_model, incl. a 390-case hand corpus) but not proved. The byte-level lexing under every layout and buffer size is C01/C07; the stream model runs over the reader's token list (skip_container at token level).",
     "technique": "machine-checked proof in Coq over an executable model + model/implementation correspondence by extraction + specification oracle on the implementation",
 }
